@@ -41,6 +41,18 @@ def model_tokens(trees):
     return out
 
 
+def model_tokens_wf(trees):
+    """(tokens, wf) per tree: `wf` is the hypothesis of C03.unparse_derives (the executable `wfEB`)"""
+    reqs = [{"op": "unparse", "e": expr_to_json(e)} for e in trees]
+    out = []
+    for r in leandrv.run_batch(reqs):
+        if "toks" in r:
+            out.append(([leandrv.cps(t) for t in r["toks"]], r.get("wf")))
+        else:
+            out.append((None, None))
+    return out
+
+
 def tokens_of_text(text):
     try:
         return pytok.real_tokens(text)
